@@ -70,7 +70,7 @@ struct Viol {
 
 struct Shm {
   volatile std::uint64_t executions, nodes, transitions, events, distinct_traces, distinct_outcomes;
-  volatile std::uint64_t max_depth, max_events, failing_execs, replay_checks, hb_accesses, hb_sync;
+  volatile std::uint64_t max_depth, max_events, failing_execs, replay_checks, hb_accesses, hb_sync, por_hits, por_states;
   volatile int state;  // 0 running, 1 exhausted, 2 capped
   volatile int resume;
   volatile int in_warmup;
@@ -114,6 +114,7 @@ struct Engine {
   bool tracing = false;
   bool warmup = false;
   bool no_record = false;
+  bool use_cache = true;
   Shm* shm = nullptr;
   Dec* path = nullptr;
   std::uint32_t* path_len = nullptr;
@@ -160,6 +161,67 @@ struct Engine {
 
 Engine g;
 
+// ------------------------------------------------------------------------------------------------
+// Partial-order fingerprint (state cache).  Every visible event gets a vector clock under the
+// dependence relation "same object and at least one of the two modifies it (every mutex / condition
+// variable / thread event modifies its object); program order; spawn; join".  The commutative sum of
+// hash(fiber, seq, kind, canonical object name, clock) over the executed events identifies the
+// Mazurkiewicz trace of the prefix; execution is deterministic given the trace, so two prefixes with
+// the same fingerprint are the same program state.  Non-scheduling answers (spurious failure, which
+// waiter was woken, coin, timer) and every reading of the explorer clock by an oracle (vx::Now) are
+// folded in non-commutatively, so states that an oracle could tell apart are never merged.
+// ------------------------------------------------------------------------------------------------
+constexpr int kPF = 16;
+struct PVC {
+  std::uint16_t c[kPF];
+  void Join(const PVC& o) {
+    for (int i = 0; i < kPF; ++i) {
+      if (o.c[i] > c[i]) {
+        c[i] = o.c[i];
+      }
+    }
+  }
+};
+struct PObj {
+  std::uint64_t name;  // 0 = empty
+  PVC w, r;
+};
+struct PBlock {
+  const char* base;
+  std::size_t size;
+  std::uint64_t name;
+};
+struct Por {
+  bool on = false;       // enabled for this run
+  bool ok = true;        // still valid in this execution (too many fibers / objects disables it)
+  bool pruned = false;   // this execution reached an already visited state: no new alternatives below
+  std::uint64_t fp = 0;
+  PVC vc[kPF];
+  static constexpr int kObjs = 256;
+  PObj objs[kObjs];
+  int nobjs = 0;
+  static constexpr int kBlocks = 512;
+  PBlock blocks[kBlocks];
+  int nblocks = 0;
+  std::uint32_t alloc_seq[kPF];
+  int usedP = 0, usedS = 0, usedT = 0;
+  std::uint64_t hits = 0;
+};
+Por gPor;
+struct PorEntry {
+  std::uint8_t p, s, t;
+};
+std::unordered_map<std::uint64_t, PorEntry>* gPorTable = nullptr;
+
+inline std::uint64_t Mix64(std::uint64_t x) {
+  x ^= x >> 30;
+  x *= 0xbf58476d1ce4e5b9ULL;
+  x ^= x >> 27;
+  x *= 0x94d049bb133111ebULL;
+  x ^= x >> 31;
+  return x;
+}
+
 struct InEngine {
   InEngine() {
     ++g.in_engine;
@@ -178,7 +240,7 @@ double NowS() {
 // ------------------------------------------------------------------------------------------------
 // Allocation ledger: live blocks allocated by non-engine code during the execution
 // ------------------------------------------------------------------------------------------------
-constexpr std::size_t kLiveCap = 1u << 16;
+constexpr std::size_t kLiveCap = 1u << 12;
 const void* gLive[kLiveCap];
 std::int64_t gLiveCount = 0;
 
@@ -311,9 +373,47 @@ void RecordViolation(const char* oracle, const char* text, bool fatal) {
 // ------------------------------------------------------------------------------------------------
 // Choice
 // ------------------------------------------------------------------------------------------------
+bool PorVisited(int cur, DKind kind);
+void PorGlobal(std::uint64_t what);
+void PorEvent(int f, int kind, const void* obj, bool writes, std::uint64_t extra);
+char CostOf(const struct Dec& d, int alt);
+
+void PorAccount(const Dec& d, int cur) {
+  // budgets used so far, and the non-scheduling answers as part of the trace
+  switch (CostOf(d, d.chosen)) {
+    case 'P':
+      ++gPor.usedP;
+      break;
+    case 'S':
+      ++gPor.usedS;
+      break;
+    case 'T':
+      ++gPor.usedT;
+      break;
+    default:
+      break;
+  }
+  if (d.kind == kWake || d.kind == kRand || (d.kind == kSpur && d.chosen != 0)) {
+    PorEvent(cur, 32 + d.kind, nullptr, false, static_cast<std::uint64_t>(d.chosen) + 1);
+  }
+}
+
 int Choose(DKind kind, int n, int timer_alt, std::uint32_t sig) {
+  yf::FiberBase* por_cur_ptr = Scheduler::Current();
+  const int por_cur = (kind == kPreempt || kind == kSpur || kind == kRand || kind == kWake) && por_cur_ptr != nullptr
+                        ? static_cast<int>(por_cur_ptr->GetId() - g.base_id)
+                        : -1;
   if (g.pos < *g.path_len) {
     Dec& d = g.path[g.pos];
+    if (d.timer_alt == -2) {
+      // recorded below an already visited state (menu not recorded): the default answer again
+      if (d.kind != kind || (d.sig != sig && d.sig != 0)) {
+        Machinery("divergence at pruned decision %u cell=%s", g.pos, g.cell_id.c_str());
+      }
+      ++g.pos;
+      PorAccount(d, por_cur);
+      return 0;
+    }
     if (d.kind != kind || d.n != n || (d.sig != sig && d.sig != 0)) {
       Machinery("divergence at decision %u: recorded kind=%s n=%d sig=%08x, now kind=%s n=%d sig=%08x cell=%s", g.pos,
                 kDKindName[d.kind], d.n, d.sig, kDKindName[kind], n, sig, g.cell_id.c_str());
@@ -324,22 +424,27 @@ int Choose(DKind kind, int n, int timer_alt, std::uint32_t sig) {
       Machinery("choice %d out of range %d at decision %u", d.chosen, n, g.pos);
     }
     ++g.pos;
+    PorAccount(d, por_cur);
     return d.chosen;
+  }
+  if (!gPor.pruned && PorVisited(por_cur, kind)) {
+    gPor.pruned = true;
   }
   if (g.pos >= kMaxDepth - 1) {
     Fatal("livelock", "more than %u decisions in one execution", kMaxDepth);
   }
   Dec& d = g.path[g.pos];
   d.kind = kind;
-  d.n = static_cast<std::uint8_t>(n);
+  d.n = static_cast<std::uint8_t>(gPor.pruned ? 1 : n);  // below an already visited state: no alternatives
   d.chosen = 0;
-  d.timer_alt = static_cast<std::int8_t>(timer_alt);
+  d.timer_alt = static_cast<std::int8_t>(gPor.pruned ? -2 : timer_alt);
   d.sig = sig;
   ++g.pos;
   *g.path_len = g.pos;
   if (g.shm != nullptr && !g.warmup) {
     ++g.shm->nodes;
   }
+  PorAccount(d, por_cur);
   return 0;
 }
 
@@ -473,6 +578,156 @@ void TraceMix(std::uint64_t v) {
 // ------------------------------------------------------------------------------------------------
 // Hooks
 // ------------------------------------------------------------------------------------------------
+// canonical, interleaving-independent name of the object at `p`
+std::uint64_t PorName(const void* p) {
+  if (p == nullptr) {
+    return 1;
+  }
+  const char* cp = static_cast<const char*>(p);
+  for (int i = gPor.nblocks - 1; i >= 0; --i) {
+    const PBlock& b = gPor.blocks[i];
+    if (cp >= b.base && cp < b.base + b.size) {
+      return Mix64(b.name + static_cast<std::uint64_t>(cp - b.base) + 0x51);
+    }
+  }
+  for (int i = 0; i < g.nfibs; ++i) {
+    yf::FiberBase* f = g.fibs[i].ptr;
+    if (f != nullptr) {
+      const char* lo = f->_stack._allocation.start;
+      if (lo != nullptr && cp >= lo && cp < lo + f->_stack._allocation.size) {
+        return Mix64((static_cast<std::uint64_t>(i + 1) << 48) ^ static_cast<std::uint64_t>(cp - lo) ^ 0x57ac);
+      }
+    }
+  }
+  return Mix64(reinterpret_cast<std::uintptr_t>(p));
+}
+
+PObj* PorObj(std::uint64_t name) {
+  for (int i = 0; i < gPor.nobjs; ++i) {
+    if (gPor.objs[i].name == name) {
+      return &gPor.objs[i];
+    }
+  }
+  if (gPor.nobjs == Por::kObjs) {
+    gPor.ok = false;
+    return nullptr;
+  }
+  PObj& o = gPor.objs[gPor.nobjs++];
+  std::memset(&o, 0, sizeof(o));
+  o.name = name;
+  return &o;
+}
+
+void PorEvent(int f, int kind, const void* obj, bool writes, std::uint64_t extra) {
+  if (!gPor.on || !gPor.ok) {
+    return;
+  }
+  if (f < 0 || f >= kPF) {
+    gPor.ok = false;
+    return;
+  }
+  PVC& v = gPor.vc[f];
+  ++v.c[f];
+  std::uint64_t name = 0;
+  if (obj != nullptr) {
+    name = PorName(obj);
+    PObj* o = PorObj(name);
+    if (o == nullptr) {
+      return;
+    }
+    if (writes) {
+      v.Join(o->w);
+      v.Join(o->r);
+      o->w = v;
+      std::memset(&o->r, 0, sizeof(o->r));
+    } else {
+      v.Join(o->w);
+      o->r.Join(v);
+    }
+  }
+  std::uint64_t h = Mix64((static_cast<std::uint64_t>(f + 1) << 56) ^ (static_cast<std::uint64_t>(kind) << 48) ^ name ^ extra);
+  for (int i = 0; i < kPF; ++i) {
+    h = Mix64(h + v.c[i] + static_cast<std::uint64_t>(i) * 0x9e3779b97f4a7c15ULL);
+  }
+  gPor.fp += h;
+}
+
+// an occurrence every later event is ordered after (timer, explorer-clock reading, ...)
+void PorGlobal(std::uint64_t what) {
+  if (gPor.on && gPor.ok) {
+    gPor.fp = Mix64(gPor.fp ^ what);
+  }
+}
+
+void PorOnAlloc(const void* p, std::size_t n) {
+  if (!gPor.on || !gPor.ok || !g.active) {
+    return;
+  }
+  yf::FiberBase* cur = Scheduler::Current();
+  const int f = cur != nullptr ? static_cast<int>(cur->GetId() - g.base_id) : -1;
+  if (f < 0 || f >= kPF) {
+    return;
+  }
+  if (gPor.nblocks == Por::kBlocks) {
+    gPor.ok = false;
+    return;
+  }
+  const std::uint32_t seq = ++gPor.alloc_seq[f];
+  gPor.blocks[gPor.nblocks++] = {static_cast<const char*>(p), n != 0 ? n : 1,
+                                 Mix64((static_cast<std::uint64_t>(f + 1) << 40) ^ (static_cast<std::uint64_t>(seq) << 8) ^ 0xa110c)};
+}
+void PorOnFree(const void* p) {
+  if (!gPor.on || gPor.nblocks == 0) {
+    return;
+  }
+  for (int i = gPor.nblocks - 1; i >= 0; --i) {
+    if (gPor.blocks[i].base == p) {
+      gPor.blocks[i] = gPor.blocks[--gPor.nblocks];
+      return;
+    }
+  }
+}
+
+void PorReset() {
+  gPor.ok = true;
+  gPor.pruned = false;
+  gPor.fp = 0x1234567;
+  std::memset(gPor.vc, 0, sizeof(gPor.vc));
+  gPor.nobjs = 0;
+  gPor.nblocks = 0;
+  std::memset(gPor.alloc_seq, 0, sizeof(gPor.alloc_seq));
+  gPor.usedP = gPor.usedS = gPor.usedT = 0;
+}
+
+// Called when a NEW decision node is about to be created.  Returns true if the state was already
+// visited with at least as much budget left: the subtree below is then not explored again.
+bool PorVisited(int cur, DKind kind) {
+  if (!gPor.on || !gPor.ok || gPorTable == nullptr || g.warmup) {
+    return false;
+  }
+  const std::uint64_t key = Mix64(gPor.fp ^ (static_cast<std::uint64_t>(cur + 2) << 8) ^ static_cast<std::uint64_t>(kind));
+  auto clamp = [](int v) {
+    return static_cast<std::uint8_t>(v < 0 ? 0 : v > 250 ? 250 : v);
+  };
+  const PorEntry now{clamp(g.bounds.P - gPor.usedP), clamp(g.bounds.S - gPor.usedS), clamp(g.bounds.T - gPor.usedT)};
+  auto it = gPorTable->find(key);
+  if (it == gPorTable->end()) {
+    if (gPorTable->size() < 40000000) {
+      gPorTable->emplace(key, now);
+    }
+    return false;
+  }
+  PorEntry& old = it->second;
+  if (now.p <= old.p && now.s <= old.s && now.t <= old.t) {
+    ++gPor.hits;
+    return true;
+  }
+  if (now.p >= old.p && now.s >= old.s && now.t >= old.t) {
+    old = now;
+  }
+  return false;
+}
+
 int HNeedInject() {
   if (!g.active) {
     return 0;
@@ -612,6 +867,7 @@ bool HFireTimer() {
       g.trace.push_back({-1, 100, -1, 0, 0, 0, "timer fired (preempting)"});
     }
     TraceMix(0x7117);
+    PorGlobal(0x7117);
     return true;
   }
   if (g.forced_next != nullptr || g.bounds.T <= 0) {
@@ -625,6 +881,7 @@ bool HFireTimer() {
       g.trace.push_back({-1, 100, -1, 0, 0, 0, "timer fired (at a free switch)"});
     }
     TraceMix(0x7118);
+    PorGlobal(0x7118);
     return true;
   }
   return false;
@@ -719,6 +976,30 @@ void HEvent(int kind, const void* obj, int order, unsigned long long before, uns
   if (kind == yaclib::verif::kJoin) {
     hb::OnJoin(self, static_cast<int>(before - g.base_id));
   }
+  if (gPor.on && gPor.ok) {
+    const bool reads_only = kind == yaclib::verif::kLoad || kind == yaclib::verif::kCasFail;
+    if (kind == yaclib::verif::kSpawn) {
+      const int child = static_cast<int>(before - g.base_id);
+      PorEvent(self, kind, nullptr, false, static_cast<std::uint64_t>(child) + 1);
+      if (child >= 0 && child < kPF && self >= 0 && self < kPF) {
+        gPor.vc[child] = gPor.vc[self];  // the child starts after everything its parent did
+      } else {
+        gPor.ok = false;
+      }
+    } else if (kind == yaclib::verif::kJoin) {
+      const int child = static_cast<int>(before - g.base_id);
+      if (child >= 0 && child < kPF && self >= 0 && self < kPF) {
+        gPor.vc[self].Join(gPor.vc[child]);
+      } else {
+        gPor.ok = false;
+      }
+      PorEvent(self, kind, nullptr, false, static_cast<std::uint64_t>(child) + 1);
+    } else if (kind == yaclib::verif::kFence) {
+      PorEvent(self, kind, nullptr, false, static_cast<std::uint64_t>(order));
+    } else {
+      PorEvent(self, kind, obj, !reads_only, 0);
+    }
+  }
 }
 
 void HEnterPrim() {
@@ -766,7 +1047,8 @@ void InstallHooks() {
 // ------------------------------------------------------------------------------------------------
 // Tracked ledger
 // ------------------------------------------------------------------------------------------------
-constexpr std::size_t kLedgerCap = 1u << 12;
+constexpr std::size_t kLedgerCap = 1u << 10;
+bool gLedgerDirty = false;
 struct LedgerEnt {
   const void* p;
   int id;
@@ -836,11 +1118,15 @@ void Point() {
     ++f.nevents;
     f.last_load_obj = nullptr;
     f.same_loads = 0;
+    ++g.nevents;
+    PorEvent(RelId(cur), 40, nullptr, false, 0);
     yaclib::InjectFault();
   }
 }
 
 std::uint64_t Now() {
+  // an oracle reads the linear clock: what it reads becomes part of the state
+  PorGlobal(0x5747 ^ (g.nevents << 16) ^ (static_cast<std::uint64_t>(Self() + 2) << 8));
   return g.nevents;
 }
 
@@ -856,6 +1142,7 @@ int Self() {
 void Mark(const char* fmt, ...) {
   InEngine guard;
   ++g.nevents;
+  PorGlobal(0x3a7c ^ (g.nevents << 16));
   if (!g.tracing) {
     return;
   }
@@ -919,6 +1206,7 @@ void LedgerCtor(const void* p, int id) {
   if (e == nullptr) {
     Machinery("ledger full");
   }
+  gLedgerDirty = true;
   e->p = p;
   e->id = id;
   e->state = 1;
@@ -983,11 +1271,13 @@ void ResetExecution() {
   g.pos = 0;
   g.alloc_count = 0;
   LiveClear();
-  if (gLedgerAlive != 0 || true) {
+  if (gLedgerDirty) {
     std::memset(gLedger, 0, sizeof(gLedger));
     gLedgerAlive = 0;
+    gLedgerDirty = false;
   }
   hb::ResetExecution();
+  PorReset();
 }
 
 void RunExecution(const Cell& cell) {
@@ -1063,13 +1353,28 @@ std::string PathToString(const Dec* p, std::uint32_t n) {
 
 void SetupCellBounds(const Cell& cell, const Bounds& cmdline) {
   g.bounds = cmdline;
-  vxh::CellBounds(cell, g.tier, g.bounds);
+  if (std::getenv("VX_FORCE_BOUNDS") == nullptr) {
+    vxh::CellBounds(cell, g.tier, g.bounds);
+  } else {
+    // calibration: keep the command line's P but take the harness' S/T/flags
+    Bounds b = cmdline;
+    vxh::CellBounds(cell, g.tier, b);
+    g.bounds.S = b.S;
+    g.bounds.T = b.T;
+    g.bounds.all_points = b.all_points;
+    g.bounds.rand_choice = b.rand_choice;
+  }
 }
 
 // Child: explores the cell depth-first starting from shm->path (empty unless resuming).
 [[noreturn]] void ChildExplore(const Cell& cell) {
   Shm* s = g.shm;
   InstallHooks();
+  gPor.on = g.use_cache && !g.bounds.all_points;
+  if (gPor.on) {
+    gPorTable = new std::unordered_map<std::uint64_t, PorEntry>();
+    gPorTable->reserve(1 << 16);
+  }
   g.path = s->path;
   g.path_len = &s->path_len;
   if (s->resume == 0) {
@@ -1135,6 +1440,8 @@ void SetupCellBounds(const Cell& cell, const Bounds& cmdline) {
         _exit(0);
       }
     }
+    s->por_hits = gPor.hits;
+    s->por_states = gPorTable != nullptr ? gPorTable->size() : 0;
     if (!Backtrack(s->path, s->path_len, g.fixed_len, g.bounds)) {
       s->state = 1;
       _exit(0);
@@ -1241,6 +1548,7 @@ struct Options {
   double deadline_s = 0;  // per-process wall budget
   std::uint64_t max_exec = 0;
   bool trace = false;
+  bool cache = true;
 };
 
 void AppendPathJson(std::string& js, const Dec* p, std::uint32_t n) {
@@ -1324,6 +1632,7 @@ int Supervise(const Options& opt, const std::string& cell_id, std::string& js, d
   g.shm = s;
   g.deadline_s = process_deadline;
   g.max_exec = opt.max_exec;
+  g.use_cache = opt.cache;
   const double t0 = NowS();
   int machinery = 0;
   std::string machinery_text;
@@ -1426,7 +1735,7 @@ int Supervise(const Options& opt, const std::string& cell_id, std::string& js, d
                 "{\"cell\":\"%s\",\"bounds\":{\"P\":%d,\"S\":%d,\"T\":%d,\"all_points\":%s,\"rand_choice\":%s},"
                 "\"executions\":%llu,\"nodes\":%llu,\"transitions\":%llu,\"events\":%llu,\"distinct_traces\":%llu,"
                 "\"distinct_outcomes\":%llu,\"max_depth\":%llu,\"max_events\":%llu,\"failing_executions\":%llu,"
-                "\"replay_checks\":%llu,\"hb_accesses\":%llu,\"hb_sync\":%llu,\"exhaustive\":%s,\"cap\":\"%s\","
+                "\"replay_checks\":%llu,\"hb_accesses\":%llu,\"hb_sync\":%llu,\"cache_hits\":%llu,\"cache_states\":%llu,\"exhaustive\":%s,\"cap\":\"%s\","
                 "\"forks\":%d,\"wall_s\":%.3f,",
                 JsonEscape(cell_id).c_str(), g.bounds.P, g.bounds.S, g.bounds.T, g.bounds.all_points ? "true" : "false",
                 g.bounds.rand_choice ? "true" : "false", static_cast<unsigned long long>(s->executions),
@@ -1435,7 +1744,8 @@ int Supervise(const Options& opt, const std::string& cell_id, std::string& js, d
                 static_cast<unsigned long long>(s->distinct_outcomes), static_cast<unsigned long long>(s->max_depth),
                 static_cast<unsigned long long>(s->max_events), static_cast<unsigned long long>(s->failing_execs),
                 static_cast<unsigned long long>(s->replay_checks), static_cast<unsigned long long>(s->hb_accesses),
-                static_cast<unsigned long long>(s->hb_sync), (s->state == 1 && machinery == 0) ? "true" : "false",
+                static_cast<unsigned long long>(s->hb_sync), static_cast<unsigned long long>(s->por_hits),
+                static_cast<unsigned long long>(s->por_states), (s->state == 1 && machinery == 0) ? "true" : "false",
                 JsonEscape(s->cap_reason).c_str(), forks, wall);
   js += b;
   js += "\"sample_outcomes\":[";
@@ -1637,6 +1947,9 @@ inline void* VxAlloc(std::size_t n, std::size_t align) {
       vx::LiveInsert(p);
     }
     vx::hb::OnAlloc(p, n);
+    if (vx::g.counting && vx::g.in_engine == 0) {
+      vx::PorOnAlloc(p, n);
+    }
   }
   return p;
 }
@@ -1648,6 +1961,7 @@ inline void VxFree(void* p) {
     vx::LiveErase(p);
   }
   vx::hb::OnFree(p);
+  vx::PorOnFree(p);
   std::free(p);
 }
 }  // namespace
@@ -1771,6 +2085,8 @@ int main(int argc, char** argv) {
       opt.replay = next();
     } else if (a == "--deadline") {
       opt.deadline_s = std::atof(next().c_str());
+    } else if (a == "--no-cache") {
+      opt.cache = false;
     } else if (a == "--max-exec") {
       opt.max_exec = std::strtoull(next().c_str(), nullptr, 10);
     } else {
